@@ -243,6 +243,42 @@ static void gen_line(gline *g, int shape)
     if (b->n >= CONFIG_BUFF) { b->n = CONFIG_BUFF - 1; b->b[b->n] = 0; }
 }
 
+/* shape 3: the output offset at which the last construct starts is chosen, within a few bytes of the line-buffer limit.
+ * The line begins with references to a set variable whose value is longer than its spelling (so the result outgrows the
+ * input, which itself must fit the buffer), continues with ordinary text up to the chosen offset and ends in one construct
+ * of each kind that advances the output by one, two or many bytes.  Results at the limit are weak for the value oracle;
+ * what is decided here is that nothing is written outside the result buffer and the passes agree. */
+static char grow_value[260];
+static void gen_boundary_line(gline *g)
+{
+    cx_buf *b = &g->text;
+    cx_buf_reset(b); cx_buf_adds(b, "");
+    g->exact_hint = 0;
+    long out = 0, growlen = (long) strlen(grow_value);
+    int nv = (int) vh_range(1, 3);
+    for (int i = 0; i < nv; i++) { cx_buf_adds(b, vh_coin(50) ? "${GROW}" : "$(GROW)"); out += growlen; }
+    long target = (long) CONFIG_BUFF - (long) vh_range(-1, 8);       /* 20472 .. 20481 */
+    int kind = (int) vh_below(8);
+    if (kind == 1) { cx_buf_addc(b, '\''); out++; }
+    if (kind == 5) { cx_buf_addc(b, '"'); out++; }
+    if (target > out) { cx_buf pad = { 0 }; cx_gen_ord(&pad, (int) (target - out), 1); cx_buf_add(b, pad.b, pad.n); cx_buf_free(&pad); }
+    switch (kind) {
+    case 0: gen_esc(b); break;                                                     /* escape outside quotes: one byte */
+    case 1: cx_buf_addc(b, '\\'); cx_buf_addc(b, "nq'\\x"[vh_below(5)]); if (vh_coin(70)) cx_buf_addc(b, '\''); break;   /* pair kept inside single quotes: two bytes */
+    case 2: cx_buf_adds(b, "${GROW}"); break;                                      /* many bytes, cut at the limit */
+    case 3: cx_buf_addc(b, '~'); break;
+    case 4: cx_buf_adds(b, "zz"); break;
+    case 5: cx_buf_addc(b, '\\'); cx_buf_addc(b, "nq\"\\x"[vh_below(5)]); if (vh_coin(70)) cx_buf_addc(b, '"'); break;
+    case 6: cx_buf_adds(b, "$(NOPE)"); break;                                      /* unset: nothing */
+    default: cx_buf_adds(b, "%nosuch"); break;
+    }
+    int tail = (int) vh_below(4);
+    for (int i = 0; i < tail; i++) cx_buf_addc(b, 't');
+    if (b->n >= CONFIG_BUFF) { b->n = CONFIG_BUFF - 1; b->b[b->n] = 0; }
+    vh_count("boundary_lines", 1);
+    vh_cov(vh_mix(0xB0DA, (uint64_t) kind * 16 + (uint64_t) (CONFIG_BUFF + 1 - target)));
+}
+
 static char *gen_value(void)
 {
     static const char V[] = "abcXYZ019 /._-$%~'\"\\(){}|`";
@@ -410,6 +446,7 @@ int main(int argc, char **argv)
             cx_env_set("EMPTY", "");
             cx_env_set(longname_set, gen_simple_value());
             cx_env_set("TMPDIR", "tmp");
+            { int gl = (int) vh_range(40, 250); for (int k = 0; k < gl; k++) grow_value[k] = (char) ('a' + k % 26); grow_value[gl] = 0; cx_env_set("GROW", grow_value); }
             /* ---- built-in table: 0,1,2 customs (no growth), 3..12 (one growth), 13..40 (two or three) */
             { int r = (int) vh_below(100); n_custom = r < 15 ? (int) vh_below(3) : r < 75 ? (int) vh_range(3, 12) : (int) vh_range(13, CX_NCUSTOM); }
             has_dir_one = has_dir_many = has_dir_empty = 0;
@@ -422,8 +459,9 @@ int main(int argc, char **argv)
                 lines[i].weak_allowed = weak_case;
                 int r = (int) vh_below(100);
                 int shape = r < 30 ? 1 : (r < 36 && longs < 2) ? 2 : 0;
-                if (shape == 2) longs++;
-                gen_line(&lines[i], shape);
+                if (shape == 0 && longs < 2 && vh_coin(4)) shape = 3;
+                if (shape >= 2) longs++;
+                if (shape == 3) gen_boundary_line(&lines[i]); else gen_line(&lines[i], shape);
             }
 
             /* ---- model dry run to decide placement (store evolves, so run the model over the whole history first) */
